@@ -78,7 +78,7 @@ func genC20Stream(r *core.Rand, g *gen.StmtGen, long bool) c20Stream {
 		var n *proto.NStmt
 		if r.Chance(1, 3) {
 			// literal hazards on purpose
-			lits := []string{"a;b", ";", "x ; y", `say "hi"`, "it; is", "SELECT;", "two  spaces", ";;", "end;"}
+			lits := []string{"a;b", ";", "x ; y", `say "hi"`, "it; is", "SELECT;", "two  spaces", ";;", "end;", "می\u200cخواهم;", "👨\u200d👩\u200d👧", "co\u00adoperate", "zero\u200bwidth", "\ufeffbom; x"}
 			n = &proto.NStmt{Kind: "insert", Name: "t", Rows: [][]proto.Val{{proto.Int(int64(i)), proto.Str(lits[r.Intn(len(lits))])}}}
 			if r.Bool() {
 				n = &proto.NStmt{Kind: "select", Star: true, From: []proto.NTable{{Name: []string{"t", "semi;colon", "o'hara", "my col"}[r.Intn(4)]}},
@@ -167,7 +167,7 @@ func genC20Stream(r *core.Rand, g *gen.StmtGen, long bool) c20Stream {
 }
 
 func checkC20(c *core.Ctx) []core.Floor {
-	c.Rule = "lists of 1-8 statements (from the C10 grammar plus literals and quoted identifiers containing semicolons, the other quote kind, spaces, keywords), each terminated by a semicolon, entered with line breaks (Enter = CR, as in raw mode) at random token boundaries - never inside a literal - several statements per line or one statement over many lines; delivered byte by byte, in random small chunks that split UTF-8 sequences, or as full 256-byte reads (a paste is a fast byte stream: the console never enables bracketed paste). The real Terminal.ReadLine (driven in-package through a go test -overlay driver) is called until EOF; the submitted statements, tokenised with the real SQL tokenizer, must equal the typed statements one to one and in order. In addition 64 (quick) / 1600 (thorough) whole console sessions run end to end: the console's own runTerminal loop on a pseudo-terminal with a real engine.Session behind it, the keystrokes written to the pty master; the statements are INSERTs of (sequence number, literal) into one table, mixed with statements the engine rejects (unknown table, syntax error, type error) on the same and on other lines; afterwards the table must hold exactly the valid INSERTs' rows, once each and in order, literals intact. Distinct = keystroke stream + chunking; non-trivial = a literal contains a semicolon, or a line carries several statements, or a statement spans several lines."
+	c.Rule = "lists of 1-8 statements (from the C10 grammar plus literals and quoted identifiers containing semicolons, the other quote kind, spaces, keywords, non-ASCII text incl. zero-width joiners / non-joiners, soft hyphens and a byte order mark), each terminated by a semicolon, entered with line breaks (Enter = CR, as in raw mode) at random token boundaries - never inside a literal - several statements per line or one statement over many lines; delivered byte by byte, in random small chunks that split UTF-8 sequences, or as full 256-byte reads (a paste is a fast byte stream: the console never enables bracketed paste). The real Terminal.ReadLine (driven in-package through a go test -overlay driver) is called until EOF; the submitted statements, tokenised with the real SQL tokenizer, must equal the typed statements one to one and in order. In addition 64 (quick) / 1600 (thorough) whole console sessions run end to end: the console's own runTerminal loop on a pseudo-terminal with a real engine.Session behind it, the keystrokes written to the pty master; the statements are INSERTs of (sequence number, literal) into one table, mixed with statements the engine rejects (unknown table, syntax error, type error) on the same and on other lines; afterwards the table must hold exactly the valid INSERTs' rows, once each and in order, literals intact. Distinct = keystroke stream + chunking; non-trivial = a literal contains a semicolon, or a line carries several statements, or a statement spans several lines."
 	c.Assume = []string{"what a line break inside a literal should become is not stated by the property: never generated", "one stream in fifty carries a statement of 4-40 KB"}
 	bin, err := buildOverlayTest(c, "cmd/console", "console_driver_test.go", "zz_verif_driver_test.go")
 	if err != nil {
@@ -322,7 +322,7 @@ type c20E2EOut struct {
 func genC20E2E(r *core.Rand) c20E2E {
 	var st c20E2E
 	var typed strings.Builder
-	lits := []string{"a;b", ";", "x ; y", `say "hi"`, "it; is", "SELECT;", "two  spaces", ";;", "end;", "plain", "", "é;ü"}
+	lits := []string{"a;b", ";", "x ; y", `say "hi"`, "it; is", "SELECT;", "two  spaces", ";;", "end;", "plain", "", "é;ü", "می\u200cخواهم;", "👨\u200d👩\u200d👧", "co\u00adoperate", "zero\u200bwidth"}
 	ns := r.Range(3, 14)
 	rejectedOnLine := false
 	sp := func() string { return "   "[:r.Range(1, 3)] }
